@@ -437,13 +437,13 @@ func genBuiltinCase(t *rapid.T) Case {
 }
 
 func TestObjectElementChains(t *testing.T) {
-	vt.Check(t, vt.N(5000, 120000), func(rt *rapid.T) {
+	vt.Check(t, vt.N(5000, 360000), func(rt *rapid.T) {
 		run(rt, genObjectCase(rt), true)
 	})
 }
 
 func TestBuiltinElementChains(t *testing.T) {
-	vt.Check(t, vt.N(3000, 80000), func(rt *rapid.T) {
+	vt.Check(t, vt.N(3000, 240000), func(rt *rapid.T) {
 		run(rt, genBuiltinCase(rt), true)
 	})
 }
